@@ -36,6 +36,8 @@ pub struct LpAddrs {
     pub gt_users: Vec<Pubkey>,
     /// feeds (remaining accounts) per market in the order the store expects
     pub feeds: Vec<Vec<AccountMeta>>,
+    /// [user][market] -> the user's GM (market token) associated token account
+    pub gm_atas: Vec<Vec<Pubkey>>,
 }
 
 pub struct Base {
@@ -149,7 +151,8 @@ fn build_base() -> Base {
         .iter()
         .map(|m| ex::feeds_and_markets(&d, &ex::market_feed_tokens(&d, m), &[], &[]))
         .collect();
-    let lp = LpAddrs { global_state, authority, oracle, controllers, positions, gt_users, feeds };
+    let gm_atas = d.users.iter().map(|u| d.markets.iter().map(|m| ata(u, &m.market_token)).collect()).collect();
+    let lp = LpAddrs { global_state, authority, oracle, controllers, positions, gt_users, feeds, gm_atas };
     Base { world: w, dep: d, lp }
 }
 
@@ -230,7 +233,7 @@ pub fn deploy_lp(w: &mut World, d: &Dep, a: &LpAddrs, gt: &GtParams, min_stake_v
 
 // ------------------------------------------------------------------ instructions
 
-pub fn stake_ix(d: &Dep, a: &LpAddrs, owner: &Pubkey, market: usize, pos: &(Pubkey, Pubkey), pid: u64, amount: u64) -> Instruction {
+pub fn stake_ix(d: &Dep, a: &LpAddrs, owner: &Pubkey, lp_token: &Pubkey, market: usize, pos: &(Pubkey, Pubkey), pid: u64, amount: u64) -> Instruction {
     let m = &d.markets[market];
     let mut ix = any_ix(
         lp::ID,
@@ -243,7 +246,7 @@ pub fn stake_ix(d: &Dep, a: &LpAddrs, owner: &Pubkey, market: usize, pos: &(Pubk
             gt_store: d.store,
             gt_program: gmsol_store::ID,
             owner: *owner,
-            user_lp_token: ata(owner, &m.market_token),
+            user_lp_token: *lp_token,
             token_map: d.token_map,
             oracle: a.oracle,
             market: m.market,
@@ -280,6 +283,7 @@ pub fn unstake_ix(
     a: &LpAddrs,
     signer: &Pubkey,
     gt_user: &Pubkey,
+    lp_token: &Pubkey,
     market: usize,
     pos: &(Pubkey, Pubkey),
     pid: u64,
@@ -298,7 +302,7 @@ pub fn unstake_ix(
             position_vault: pos.1,
             owner: *signer,
             gt_user: *gt_user,
-            user_lp_token: ata(signer, &m.market_token),
+            user_lp_token: *lp_token,
             event_authority: d.event_authority,
             token_program: spl_token::ID,
         },
